@@ -88,7 +88,25 @@ VALIDATE_NML2 = ["nml_doc = loaders.read_neuroml2_file(file_name, include_includ
                  "nml_doc.validate(recursive=True)", 'print("It\'s valid!")']
 
 
-def validate_mode(ck):
+def switch_obligation_(ck, path):
+    """validate() is a function of the tree: neither it nor _validate_members (nor anything else named validate* in that
+    file) reads the global switch that is documented to affect component_factory()/add() only"""
+    name = "validate:does-not-read-the-build-time-validation-switch"
+    try:
+        readers = []
+        for n in ast.walk(ast.parse(open(path).read())):
+            if isinstance(n, ast.FunctionDef) and (n.name.startswith("validate") or n.name.startswith("_validate")):
+                for x in ast.walk(n):
+                    if (isinstance(x, ast.Attribute) and x.attr in ("build_time_validation", "ENABLED", "get_build_time_validation")) or \
+                            (isinstance(x, ast.Name) and x.id in ("build_time_validation", "get_build_time_validation")):
+                        readers.append("%s (line %d)" % (n.name, x.lineno))
+                        break
+        ck.oblige(name, not readers, "neuroml.build_time_validation is read in: " + ", ".join(readers), kind="instance")
+    except Exception as e:  # noqa
+        ck.oblige(name, False, repr(e), kind="instance")
+
+
+def validate_mode(ck, switch_obligation=False):
     """which recursion does GeneratedsSuperSuper.validate perform?  Recognised source shapes select the model variant
     directly; an unrecognised (refactored) shape is classified by a probe on the real code and the correspondence
     run over all classes has to confirm the choice.  Returns 'gen' | 'all'."""
@@ -119,6 +137,8 @@ def validate_mode(ck):
         mode = json.loads(lines[-1]) if p.returncode == 0 and lines else "gen"
         info["mode_by_probe"] = mode
     ck.extra["validate_source_shape"] = info
+    if switch_obligation:
+        switch_obligation_(ck, path)
     # the file-level wrappers
     try:
         ut = ast.parse(open(os.path.join(REPO, "neuroml", "utils.py")).read())
